@@ -67,6 +67,7 @@ class Gen:
         self.idents = idents or IDENTS
         self.n_items = 0
         self.class_names = []       # names of the classes that are open where the next item is generated
+        self.fn_names = []          # name tokens of the function/macro definitions the next item is nested in
         self.member_names = []      # per open class: the member/constructor names declared in it so far (overloads reuse one)
 
     def class_ref(self):
@@ -316,8 +317,11 @@ class Gen:
             toks = [self.tok(self.ident())] + [self.tok(forms='bqk') for _ in range(g.randint(0, 3))]
             if g.random() < 0.06: toks = toks[:1] + [self.tok(p) for p in g.sample(LONG_PARAMS, g.randint(4, 7))]
             if mal and g.random() < 0.3: toks = []
-            it = dict(k='block', doc=d, open=self.call(kw, toks, ind, cfirst, after_doc=d is not None),
-                      body=self.items(depth + 1, False, False, False), close=self.call('end' + kw, [], ind))
+            opener = self.call(kw, toks, ind, cfirst, after_doc=d is not None)
+            self.fn_names.append(toks[0] if toks else None)      # a test declared inside may name its implementing function like this one
+            try: body = self.items(depth + 1, False, False, False)
+            finally: self.fn_names.pop()
+            it = dict(k='block', doc=d, open=opener, body=body, close=self.call('end' + kw, [], ind))
             if g.random() < 0.15: it['close'] = self.call(g.choice(['endfunction', 'endmacro']), [self.tok(forms='b')], ind)
             return it
         if k == 'set':
@@ -369,6 +373,8 @@ class Gen:
                 elif m < 0.7: toks = [t for t in toks if t != ['b', 'NAME']] + [self.tok('NAME')]
             impl = g.choice(['function', 'macro'])
             itoks = [['q', '${' + (nm[1] if nm[0] == 'b' else 'x') + '}']] + [self.tok(forms='b') for _ in range(g.choice([0, 0, 1, 3]))]
+            if self.fn_names and self.fn_names[-1] is not None and g.random() < 0.2:
+                itoks[0] = list(self.fn_names[-1])      # CMakeTest files reuse one variable: function(${_name}) ... ct_add_section(NAME _name) function(${_name})
             return dict(k='decl', doc=d, decl=self.call(cmd, toks, ind, cfirst, after_doc=d is not None),
                         impl=self.call(impl, itoks, ind), body=self.items(depth + 1, False, True, False),
                         close=self.call('end' + impl, [], ind))
